@@ -33,7 +33,7 @@ def trace_inputs(trace):
             v = val.get('data', val.get('name'))
             if v is None and 'elements' in val:
                 v = '<array>'
-            out.append({'lhs': lhs, 'value': v, 'line': loc.get('line'), 'function': loc.get('function')})
+            out.append({'lhs': lhs, 'value': v, 'binary': val.get('binary'), 'line': loc.get('line'), 'function': loc.get('function')})
     return out
 
 
@@ -69,7 +69,7 @@ def main(argv=None):
         queries = KF.apply(queries, findings)
         units = sorted({u for q in queries for u in q.units})
         bld.build_units(units)
-        pre = spec.prechecks(bld) if hasattr(spec, 'prechecks') else []
+        pre = spec.prechecks(bld, a.tier) if hasattr(spec, 'prechecks') else []
         results = C.run_all(bld, queries, jobs=a.jobs)
         rc = report(pid, spec, a.tier, seed, bld, queries, results, findings, pre, t0, a)
     except B.BuildError as e:
@@ -170,8 +170,8 @@ def write_evidence(pid, spec, tier, seed, queries, results, t0, violations=0, no
         for p in r.get('props', []):
             d = p['desc'] or ''
             key = (r['name'], p['id'])
-            if d.startswith('reach:'):
-                reach.append({'query': r['name'], 'goal': d[6:].strip(), 'reached': p['status'] == 'FAILURE'})
+            if d.startswith('reach:') or d.startswith('reach-opt:'):
+                reach.append({'query': r['name'], 'goal': d.split(':', 1)[1].strip(), 'reached': p['status'] == 'FAILURE'})
             else:
                 obligations.append({'query': r['name'], 'id': p['id'], 'desc': d, 'status': p['status']})
                 loc = (p.get('loc') or {}).get('file', '')
@@ -181,7 +181,7 @@ def write_evidence(pid, spec, tier, seed, queries, results, t0, violations=0, no
                     nontrivial.add((r['name'], d if d else p['id']))
         qsum.append({'query': r['name'], 'status': r['status'], 'wall_s': round(r.get('wall_s', 0), 1),
                      'solver_s': round(r.get('solver_s', 0), 1), 'peak_rss_kb': r.get('peak_rss_kb'),
-                     'bounds': r.get('bounds'), 'obligations': len([p for p in r.get('props', []) if not (p['desc'] or '').startswith('reach:')]),
+                     'bounds': r.get('bounds'), 'obligations': len([p for p in r.get('props', []) if not (p['desc'] or '').startswith('reach')]),
                      'reach_goals': r.get('n_reach')})
     discharged = len([o for o in obligations if o['status'] == 'SUCCESS'])
     samples = []
